@@ -71,6 +71,15 @@ def _creator_of(program, label):
     return None
 
 
+def _declared_inputs(program, label):
+    """The `inp` list of the run/plan action that defines `label`."""
+    for name in sorted(program.get("scripts", {})):
+        for a in program["scripts"][name] or []:
+            if isinstance(a, dict) and a.get("op") in ("run", "plan") and a.get("label") == label:
+                return list(a.get("inp", []))
+    return []
+
+
 def _producer_of(program, path):
     """Label of the step that declares `path` as an output (first in script-name order)."""
     for name in sorted(program.get("scripts", {})):
@@ -180,6 +189,8 @@ def profile(r, program: dict) -> dict:
     for c in cmds:
         acts = _script(program, c["label"]) or []
         inputs = {p for a in acts if isinstance(a, dict) and a.get("op") == "amend" for p in a.get("inp", [])}
+        # ... and the inputs it was defined with (D46 is about ANY input that is detached at completion)
+        inputs |= set(_declared_inputs(program, c["label"]))
         if not inputs:
             continue
         am = [s for n, _ok, s in c["rpc"] if n in ("amend", "amend_step")]
